@@ -24,15 +24,29 @@ RULE = ("R-score compositions (1-4 tracks; all 30 keys; 14 meters; plain, dotted
         "per tick plus per-(channel, pitch) on/off alternation in stream order, with the events computed from the description. "
         "VLQ encoder: dense range + neighbourhoods of all powers of two (quick), all 2^28 values (thorough). Non-trivial: a score "
         "with a rest adjacent to a chord, a key/meter change, a leading rest with a MIDI instrument, a tempo change or repeat > 0."
-        ' Also: values given as 288/k ticks outside the vocabulary, track names of 120-300 characters, enharmonic twin and repeated bars, tracks sharing one instrument object, a second write of the same objects must give identical bytes, and sounding entries whose value (300 .. 2000) rounds to 0 or 1 tick; a track without bars among the others, chords that are not in ascending order (after item assignment), entries held in a user subclass of NoteContainer and instruments of a user subclass of MidiInstrument.')
+        ' Also: values given as 288/k ticks outside the vocabulary, track names of 120-300 characters, enharmonic twin and repeated bars, tracks sharing one instrument object, a second write of the same objects must give identical bytes, and sounding entries whose value (300 .. 2000) rounds to 0 or 1 tick; tempo and repeat count given by keyword or left to the documented defaults (120 bpm, written once); a track without bars among the others, chords that are not in ascending order (after item assignment), entries held in a user subclass of NoteContainer and instruments of a user subclass of MidiInstrument.')
 ASSUMPTIONS = ["values whose exact tick length is x.5 are not generated (rounding would depend on float artefacts)",
                "order of events inside one tick is not prescribed beyond: instrument events before the first note-on, and per "
                "(channel, pitch) strict on/off alternation", "track names are ASCII; the tick of the track-name event is not compared"]
 
-def _write(ctx, fn, obj, bpm, repeat):
+def _form(case):
+    """how tempo and repeat count are handed over: positionally, by keyword, or left to the documented defaults (120 bpm, written
+    once) - in which case the expected values are those defaults"""
+    form = case.get("form", "pos")
+    if form == "default":
+        return form, 120, 0
+    return form, case["bpm"], case["repeat"]
+
+
+def _write(ctx, fn, obj, bpm, repeat, form="pos"):
     with tempfile.TemporaryDirectory(prefix="verif_c16_") as d:
         path = os.path.join(d, "t.mid")
-        r = ctx.ok("writer/" + fn.__name__, fn, path, obj, bpm, repeat)
+        if form == "kw":
+            r = ctx.ok("writer/" + fn.__name__, lambda: fn(path, obj, repeat=repeat, bpm=bpm))
+        elif form == "default":
+            r = ctx.ok("writer/" + fn.__name__, fn, path, obj)
+        else:
+            r = ctx.ok("writer/" + fn.__name__, fn, path, obj, bpm, repeat)
         if failed(r):
             return None
         ctx.check(r is True, "writer/returned-false", fn.__name__)
@@ -99,14 +113,15 @@ def _compare(ctx, got_raw, exp, what):
 
 
 def check_comp(ctx, case):
-    cd, bpm, repeat, via = case["comp"], case["bpm"], case["repeat"], case["via"]
+    cd, via = case["comp"], case["via"]
+    form, bpm, repeat = _form(case)
     comp = mg.build_comp(cd)
     if via == "file":
-        data = _write(ctx, MFO.write_Composition, comp, bpm, repeat)
+        data = _write(ctx, MFO.write_Composition, comp, bpm, repeat, form)
     else:
         mts = []
         for t in comp.tracks:
-            mt = MidiTrack(bpm)
+            mt = MidiTrack() if form == "default" else MidiTrack(bpm)
             for _ in range(repeat + 1):
                 mt.play_Track(t)
             mts.append(mt)
@@ -130,8 +145,9 @@ def check_comp(ctx, case):
 
 
 def check_track(ctx, case):
-    td, bpm, repeat = case["track"], case["bpm"], case["repeat"]
-    data = _write(ctx, MFO.write_Track, mg.build_track(td), bpm, repeat)
+    td = case["track"]
+    form, bpm, repeat = _form(case)
+    data = _write(ctx, MFO.write_Track, mg.build_track(td), bpm, repeat, form)
     if data is not None:
         r = _structure(ctx, data, 1)
         if r is not None and r["tracks"]:
@@ -144,8 +160,9 @@ def check_track(ctx, case):
 
 
 def check_bar(ctx, case):
-    bd, bpm, repeat = case["bar"], case["bpm"], case["repeat"]
-    data = _write(ctx, MFO.write_Bar, mg.build_bar(bd), bpm, repeat)
+    bd = case["bar"]
+    form, bpm, repeat = _form(case)
+    data = _write(ctx, MFO.write_Bar, mg.build_bar(bd), bpm, repeat, form)
     td = {"name": None, "instr": None, "bars": [bd]}
     if data is not None:
         r = _structure(ctx, data, 1)
@@ -156,14 +173,15 @@ def check_bar(ctx, case):
 
 
 def check_nc(ctx, case):
-    notes, bpm, repeat, single = case["notes"], case["bpm"], case["repeat"], case["single"]
+    notes, single = case["notes"], case["single"]
+    form, bpm, repeat = _form(case)
     if single:
         n = notes[0]
         from mingus.containers import Note
-        data = _write(ctx, MFO.write_Note, Note(n[0], n[1], channel=n[2], velocity=n[3]), bpm, repeat)
+        data = _write(ctx, MFO.write_Note, Note(n[0], n[1], channel=n[2], velocity=n[3]), bpm, repeat, form)
         notes = [n]
     else:
-        data = _write(ctx, MFO.write_NoteContainer, mg.build_nc(notes), bpm, repeat)
+        data = _write(ctx, MFO.write_NoteContainer, mg.build_nc(notes), bpm, repeat, form)
     exp = [(0, "tempo", 60000000 // bpm)]
     for k in range(repeat + 1):
         for (n, o, c, vel) in notes:
@@ -221,20 +239,20 @@ def _cfg(**kw):
 
 def sub_comps(ctx, shard, n):
     strat = st.fixed_dictionaries({"comp": SG.comp_st(_cfg(max_tracks=3)), "bpm": st.integers(4, 1000),
-                                   "repeat": st.sampled_from([0, 0, 1, 2, 3]), "via": st.sampled_from(["file", "data"])})
+                                   "repeat": st.sampled_from([0, 0, 1, 2, 3]), "via": st.sampled_from(["file", "data"]), "form": st.sampled_from(["pos", "pos", "kw", "default"])})
     ctx.given("comp", check_comp, strat, 150 if ctx.quick else 1000)
 
 
 def sub_tracks(ctx, shard, n):
     strat = st.fixed_dictionaries({"track": SG.track_st(_cfg(instruments=["none", "midi", "midi", "generic"], rest_p=3)),
-                                   "bpm": st.integers(4, 1000), "repeat": st.sampled_from([0, 0, 1, 2, 3])})
+                                   "bpm": st.integers(4, 1000), "repeat": st.sampled_from([0, 0, 1, 2, 3]), "form": st.sampled_from(["pos", "pos", "kw", "default"])})
     ctx.given("track", check_track, strat, 250 if ctx.quick else 1500)
 
 
 def sub_bars(ctx, shard, n):
     cfg = _cfg(meters=SG.ALL_METERS, rest_p=3)
     strat = st.fixed_dictionaries({"bar": SG.bar_st(cfg, fill=False) | SG.bar_st(cfg), "bpm": st.integers(4, 1000),
-                                   "repeat": st.sampled_from([0, 1, 2, 3])})
+                                   "repeat": st.sampled_from([0, 1, 2, 3]), "form": st.sampled_from(["pos", "pos", "kw", "default"])})
     ctx.given("bar", check_bar, strat, 250 if ctx.quick else 1500)
 
 
@@ -259,7 +277,7 @@ def sub_nc(ctx, shard, n):
     strat = st.fixed_dictionaries({
         "notes": st.lists(SG.note_st(cfg), min_size=1, max_size=5, unique_by=lambda x: T.pitch(x[0], x[1])).map(
             lambda ns: sorted(ns, key=lambda x: T.pitch(x[0], x[1]))),
-        "bpm": st.integers(4, 1000), "repeat": st.integers(0, 3), "single": st.booleans()})
+        "bpm": st.integers(4, 1000), "repeat": st.integers(0, 3), "single": st.booleans(), "form": st.sampled_from(["pos", "pos", "kw", "default"])})
     ctx.given("nc", check_nc, strat, 400 if ctx.quick else 3000)
 
 
